@@ -29,6 +29,17 @@ def canonicalise(tree: ast.AST) -> None:
       not not X                ->  X
       not (a == b) / (a in b) / (a is b) and their negative forms -> the single comparison
     Line numbers stay those of the original nodes."""
+    # x = x <op> e  ->  x <op>= e   (plain names; the two differ only in whether a mutable left operand is
+    # updated in place, which no rule relies on)
+    for node in ast.walk(tree):
+        for fld in ("body", "orelse", "finalbody"):
+            seq = getattr(node, fld, None)
+            if not (isinstance(seq, list) and seq and isinstance(seq[0], ast.stmt)):
+                continue
+            for i, st in enumerate(seq):
+                if isinstance(st, ast.Assign) and len(st.targets) == 1 and isinstance(st.targets[0], ast.Name) and isinstance(st.value, ast.BinOp) and isinstance(st.value.left, ast.Name) and st.value.left.id == st.targets[0].id and isinstance(st.value.op, (ast.Add, ast.Sub, ast.Mult, ast.BitOr, ast.BitAnd, ast.BitXor, ast.FloorDiv, ast.Mod)):
+                    seq[i] = ast.copy_location(ast.AugAssign(target=ast.Name(id=st.targets[0].id, ctx=ast.Store()), op=st.value.op, value=st.value.right), st)
+                    ast.fix_missing_locations(seq[i])
     # comparisons are oriented: a constant stands on the right; otherwise `<` / `<=` are preferred
     #   1 < len(x) -> len(x) > 1      n > len(x) -> len(x) < n      "a" == x -> x == "a"
     _flip = {ast.Gt: ast.Lt, ast.GtE: ast.LtE, ast.Lt: ast.Gt, ast.LtE: ast.GtE, ast.Eq: ast.Eq, ast.NotEq: ast.NotEq}
